@@ -5,24 +5,24 @@ package main
 // with HcModel/PairVerify.lean on symbolic histories over 1-2 connections and a changing pairing store.
 
 import (
-	"encoding/hex"
-	"encoding/json"
-	"io/ioutil"
-	"path/filepath"
-	"sync/atomic"
-	"os"
 	"bufio"
 	"bytes"
 	"crypto/ed25519"
+	"encoding/hex"
+	"encoding/json"
 	"fmt"
 	"github.com/brutella/hc/hap"
 	"github.com/brutella/hc/util"
 	"io"
+	"io/ioutil"
 	"math/rand"
 	"net"
 	"net/http"
+	"os"
+	"path/filepath"
 	"strings"
 	"sync"
+	"sync/atomic"
 	"time"
 
 	"github.com/brutella/hc/accessory"
@@ -53,9 +53,9 @@ type pvMsg struct {
 	// KBack / AccBack: WHICH ephemeral key of the accessory on that connection the seal key / the signed material was
 	// computed with — 0 the one of the latest start response, k the one k start responses earlier (recorded then)
 	KBack, AccBack int
-	Entry     string // none nokey key
-	EntryPk   int
-	N         int
+	Entry          string // none nokey key
+	EntryPk        int
+	N              int
 }
 
 func (m pvMsg) tok() string {
